@@ -307,6 +307,14 @@ def call_event(entry, fn, args, kwargs, selfobj, G, cls_tag, variant=""):
     return observe_call(entry, fn, args, kwargs, selfobj, G, cls_tag, variant)[0]
 
 
+def _is_mutable_obj(a):
+    from pymeeus.Angle import Angle
+    from pymeeus.Epoch import Epoch
+    from pymeeus.Interpolation import Interpolation
+    from pymeeus.CurveFitting import CurveFitting
+    return isinstance(a, (Angle, Epoch, Interpolation, CurveFitting, list))
+
+
 def observe_call(entry, fn, args, kwargs, selfobj, G, cls_tag, variant=""):
     """perform the call and describe it -> (event, result, exception)"""
     qn = entry[0]
@@ -319,11 +327,14 @@ def observe_call(entry, fn, args, kwargs, selfobj, G, cls_tag, variant=""):
     try:
         res = fn(*args, **kwargs)
         oc, rd, fin, shp = "ok", digest(res), 1 if (finite(res) or (res is None and qn in A.MUTATORS) or A.NONE_OK.get(qn) == shape(res)) else 0, shape(res)
-        if isinstance(res, (list, tuple)) and res is not None:
-            # a result that aliases an argument list would let the caller corrupt it later: not a value copy
-            pass
+        # a result (or a component of a returned tuple / list) that IS one of the caller's mutable argument objects shares
+        # state with it: re-targeting the argument later changes the "result" (the receiver of a method is not an argument)
+        parts = list(res) if isinstance(res, (list, tuple)) else [res]
+        margs = [a for a in list(args) + list(kwargs.values()) if _is_mutable_obj(a)]
+        alias = 1 if any(any(p is a for a in margs) for p in parts + [res]) else 0
     except Exception as ex:
         exc = ex
+        alias = 0
         oc, rd, fin, shp = _oc(ex), 0, 1, "raise"
     post = [digest(a) for a in watched]
     gpost = G.digest()
@@ -333,7 +344,7 @@ def observe_call(entry, fn, args, kwargs, selfobj, G, cls_tag, variant=""):
     key = _h2(qn + "|" + argcanon + "|" + selfcanon)
     return ({"k": "call", "f": qn, "site": qn, "cls": cls_tag, "variant": variant, "pre": pre, "post": post, "gpre": gpre, "gpost": gpost,
             "res": rd, "fin": fin, "shape": shp, "oc": oc, "key": key, "mut": mut, "clock": 1 if qn in A.CLOCK else 0,
-            "nargs": len(args)}, res, exc)
+            "nargs": len(args), "alias": alias}, res, exc)
 
 
 TABULAR = ("Coordinates.planetary_conjunction", "Coordinates.planet_star_conjunction", "Coordinates.planet_stars_in_line")
